@@ -1255,3 +1255,12 @@ def run(res, facts, tier):
     _run_c02_25(res, facts, tier)
     from . import c02_parse
     c02_parse.run_tokenizer_rule(res, facts, tier)
+
+
+_run_c02_26 = run
+
+
+def run(res, facts, tier):
+    _run_c02_26(res, facts, tier)
+    from . import c02_num
+    c02_num.run_rule(res, facts, tier)
